@@ -2,6 +2,7 @@ import StimModel.Driver.Wire
 import StimModel.Model.TSim
 import StimModel.Model.PauliProp
 import StimModel.Model.Tableau
+import StimModel.Core.Formats
 /-! Line-protocol dispatcher: one request line in, one answer line out. -/
 namespace Stim.Driver
 open Stim Stim.Wire
@@ -182,12 +183,69 @@ def tabCmd (toks : List String) : String :=
     | _ => "bad-request"
   | _ => "bad-request"
 
+def hexStr (bytes : List Nat) : String :=
+  if bytes.isEmpty then "-" else
+  let d := "0123456789abcdef".toList
+  String.ofList (bytes.flatMap fun b => [d.getD (b / 16) '0', d.getD (b % 16) '0'])
+
+def unhexBytes (s : String) : List Nat :=
+  if s == "-" then [] else
+  let rec go : List Char → List Nat
+    | a :: b :: rest => (hexVal a * 16 + hexVal b) :: go rest
+    | _ => []
+  go s.toList
+
+open Stim.Fmt in
+def fmtCmd (toks : List String) : String :=
+  match toks with
+  | "enc" :: f :: m :: d :: l :: k :: rows =>
+    match m.toNat?, d.toNat?, l.toNat?, k.toNat? with
+    | some m, some d, some l, some _ =>
+      let sp : Split := ⟨m, d, l⟩
+      let bits := rows.map bitsOf
+      if f == "ptb64" then hexStr (encPtb64 sp.n bits)
+      else
+        let fm? : Option Format := if f == "01" then some .f01 else if f == "b8" then some .b8 else if f == "r8" then some .r8
+          else if f == "hits" then some .hits else if f == "dets" then some .dets else none
+        match fm? with
+        | some fm => hexStr (bits.flatMap (encode fm sp))
+        | none => "bad-format"
+    | _, _, _, _ => "bad-request"
+  | ["dec", f, m, d, l, maxS, hex] =>
+    match m.toNat?, d.toNat?, l.toNat?, maxS.toNat? with
+    | some m, some d, some l, some maxShots =>
+      let sp : Split := ⟨m, d, l⟩
+      let bytes := unhexBytes hex
+      let show_ := fun (recs : List (List Bool)) (e : Bool) =>
+        String.intercalate " " ((if e then "err" else "ok") :: toString recs.length :: recs.map strOfBits)
+      if f == "ptb64" then
+        -- groups of 64 shots
+        let rec go : Nat → List Nat → List (List Bool) → List (List Bool) × Bool
+          | 0, _, acc => (acc, false)
+          | fuel+1, bs, acc =>
+            if acc.length ≥ maxShots then (acc, false) else
+            match decPtb64Group sp.n bs with
+            | .ok g rest => go fuel rest (acc ++ g)
+            | .eof => (acc, false)
+            | .err => (acc, true)
+        let (recs, e) := go (bytes.length + 1) bytes []
+        show_ (recs.take maxShots) e
+      else
+        let fm? : Option Format := if f == "01" then some .f01 else if f == "b8" then some .b8 else if f == "r8" then some .r8
+          else if f == "hits" then some .hits else if f == "dets" then some .dets else none
+        match fm? with
+        | some fm => let (recs, e) := decodeAll fm sp maxShots bytes; show_ recs e
+        | none => "bad-format"
+    | _, _, _, _ => "bad-request"
+  | _ => "bad-request"
+
 def answer (toks : List String) : String :=
   match toks with
   | "tsim" :: "check" :: rest => tsimCheck rest
   | "tsim" :: "ref" :: rest => tsimRef rest
   | "pauli" :: rest => pauliCmd rest
   | "tab" :: rest => tabCmd rest
+  | "fmt" :: rest => fmtCmd rest
   | "gate" :: "act" :: rest => gateAct rest
   | "gate" :: "actu" :: rest => gateActU rest
   | "gate" :: "mismatch" :: [g] =>
